@@ -29,6 +29,8 @@ typedef struct rcase {
 
 extern rcase_t g_case;
 long cfg_get(const char* key, long dflt);
+extern int rt_tolerate_known_reads;
+void rt_known_read_site(int enter);
 
 // every harness implements this interface (instrumented code)
 typedef struct harness {
